@@ -26,6 +26,10 @@ type T struct {
 	wakeAt   time.Time
 	started  bool
 	panicked any
+	atomic   int
+	points   int
+	// Stalled is true when the thread was stopped by Scenario.StallAt.
+	Stalled bool
 	// History is filled by the scenario body (API calls with results).
 	History []string
 	// Data is scenario-private per-thread data (results for the oracle).
@@ -65,6 +69,7 @@ type Execution struct {
 	byGID     sync.Map // gid -> *T
 	classes   map[string]bool
 	cur       *T
+	inTeardown bool
 	// Env is scenario state for this execution (set by Setup).
 	Env any
 }
@@ -117,6 +122,9 @@ type Scenario struct {
 	MaxSteps int
 	// Watchdog is the real-time limit for one step (thread blocked for real => Hang).
 	Watchdog time.Duration
+	// StallAt: thread id -> ordinal (1-based) of the scheduling point at which that thread stalls forever
+	// (a stuck or dead lock holder: it keeps whatever it holds and never runs again).
+	StallAt map[int]int
 }
 
 type ThreadSpec struct {
@@ -141,17 +149,28 @@ func Run(sc *Scenario, prefix []int) *Execution {
 			return
 		}
 		t := x.self()
-		if t == nil || t.finished {
+		if t == nil || t.finished || t.atomic > 0 {
 			return
 		}
 		x.mu.Lock()
 		x.Trace = append(x.Trace, fmt.Sprintf("%d:%s:%s", t.ID, class, label))
 		x.mu.Unlock()
+		t.points++
+		if k, ok := sc.StallAt[t.ID]; ok && t.points == k {
+			t.Stalled = true
+			t.finished = true
+			x.yield <- t
+			select {} // never runs again; the goroutine is abandoned with everything it holds
+		}
 		x.yield <- t
 		<-t.resume
 	}
 	hooks.Sleep = func(ctx context.Context, d time.Duration) bool {
 		t := x.self()
+		if t == nil && x.inTeardown {
+			x.Advance(d) // single-threaded teardown: sleeping just lets virtual time pass
+			return true
+		}
 		if t == nil || t.finished {
 			return false
 		}
@@ -322,6 +341,7 @@ func Run(sc *Scenario, prefix []int) *Execution {
 		panic(ErrDivergence{fmt.Sprintf("prefix has %d choices but execution had only %d decisions", len(prefix), len(x.decisions))})
 	}
 	if sc.Teardown != nil && !x.Hang {
+		x.inTeardown = true
 		sc.Teardown(x)
 	}
 	return x
@@ -412,4 +432,12 @@ func (t *T) Note(s string) {
 	t.x.mu.Lock()
 	t.x.Trace = append(t.x.Trace, fmt.Sprintf("%d:note:%s", t.ID, s))
 	t.x.mu.Unlock()
+}
+
+// Atomic runs fn on the calling thread without yielding at scheduling points (for oracles that must
+// observe the state of one instant).
+func (t *T) Atomic(fn func()) {
+	t.atomic++
+	defer func() { t.atomic-- }()
+	fn()
 }
